@@ -243,6 +243,14 @@ int read_macho(
     macho_load_command.type = file.get_int32();
     macho_load_command.size = file.get_int32();
 
+    // Counts and sizes come from the file, stop when the file does.
+    if (file.is_eof())
+    {
+      printf("Error: Mach-O load commands run past the end of the file.\n");
+      file.close_file();
+      return -1;
+    }
+
     switch (macho_load_command.type)
     {
       case 0x00000001:
@@ -256,6 +264,13 @@ int read_macho(
         {
           macho_read_section(macho_section, file, bits);
 
+          if (file.is_eof())
+          {
+            printf("Error: Mach-O sections run past the end of the file.\n");
+            file.close_file();
+            return -1;
+          }
+
           if (strcmp(macho_section.section_name, "__text") == 0)
           {
             long marker = file.tell();
@@ -263,7 +278,16 @@ int read_macho(
 
             for (uint32_t t = 0; t < macho_section.size; t++)
             {
-              memory->write8(macho_section.address + t, file.get_int8());
+              int value = file.get_int8();
+
+              if (value == EOF)
+              {
+                printf("Error: Mach-O __text is longer than the file.\n");
+                file.close_file();
+                return -1;
+              }
+
+              memory->write8(macho_section.address + t, value);
             }
 
             start = macho_section.address;
@@ -288,6 +312,8 @@ int read_macho(
         for (uint32_t n = 0; n < macho_symtab.symbol_count; n++)
         {
           macho_read_symbol(macho_symbol, file, bits);
+
+          if (file.is_eof()) { break; }
 
           // Check N_EXT (external symbol bit).
           if ((macho_symbol.type & 1) == 1)
